@@ -2,7 +2,7 @@
 import json, os, re, shutil, subprocess, sys, time, hashlib, random
 
 VERIF = os.path.dirname(os.path.dirname(os.path.abspath(__file__)))
-REPO = '/repo'
+REPO = os.environ.get('VERIF_REPO', '/repo')   # (a scratch worktree when seeded defects are tried out in parallel; checks use /repo)
 SPEC = os.path.join(VERIF, 'spec')
 HARNESS = os.path.join(VERIF, 'harness')
 GO = 'go1.26.8'
@@ -54,12 +54,22 @@ def sync_gosum():
 
 def build_test(work, pkg, out, race=False, tags='verif'):
     """Builds a harness test binary against /repo's working tree."""
-    sync_gosum()
+    hdir = HARNESS
+    if REPO != '/repo':
+        # mutation runs: a private copy of the harness module whose replace directive points at the scratch worktree
+        hdir = work.path('harness_copy')
+        if not os.path.isdir(hdir):
+            shutil.copytree(HARNESS, hdir)
+            gm = open(os.path.join(hdir, 'go.mod')).read().replace('=> /repo', '=> ' + REPO)
+            open(os.path.join(hdir, 'go.mod'), 'w').write(gm)
+            shutil.copy(os.path.join(REPO, 'go.sum'), os.path.join(hdir, 'go.sum'))
+    else:
+        sync_gosum()
     cmd = [GO, 'test', '-c', '-tags', tags, '-o', out]
     if race:
         cmd.append('-race')
     cmd.append(pkg)
-    p = subprocess.run(cmd, cwd=HARNESS, env=goenv(), stdout=subprocess.PIPE, stderr=subprocess.STDOUT, text=True)
+    p = subprocess.run(cmd, cwd=hdir, env=goenv(), stdout=subprocess.PIPE, stderr=subprocess.STDOUT, text=True)
     if p.returncode != 0:
         raise Inconclusive('driver build failed (does /repo still compile?):\n' + p.stdout[-4000:])
     return out
@@ -294,12 +304,13 @@ def load_known():
 
 
 def write_evidence(pid, tier, level, coverage, assumptions, wall, violations):
-    os.makedirs(os.path.join(VERIF, 'evidence'), exist_ok=True)
+    d = os.environ.get('VERIF_EVIDENCE_DIR') or os.path.join(VERIF, 'evidence')     # (mutation runs write elsewhere)
+    os.makedirs(d, exist_ok=True)
     ev = dict(property_id=pid, tier=tier, seed=seed(), level=level, coverage=coverage, assumptions=assumptions,
               wall_s=round(wall, 2), violations=violations)
-    tmp = os.path.join(VERIF, 'evidence', pid + '.json.tmp')
+    tmp = os.path.join(d, pid + '.json.tmp')
     json.dump(ev, open(tmp, 'w'), indent=1)
-    os.replace(tmp, os.path.join(VERIF, 'evidence', pid + '.json'))
+    os.replace(tmp, os.path.join(d, pid + '.json'))
 
 
 def save_replay(pid, name, obj):
